@@ -7,6 +7,7 @@ windows       Assembly.getBlocksBetweenElevations against an independent overlap
 snap_mesh     Assembly.setBlockMesh: mass-conserving change of the block mesh
 filter_mesh   UniformMeshGenerator._filterMesh validity predicates / refusal rule
 common_mesh   UniformMeshGenerator.generateCommonMesh on small blueprint reactors (public path of the filter)
+converter     convert / applyStateToOriginal round trip, whole core and nonUniformAssemFlags subsets
 resample      mathematics.resampleStepwise against an exact step-function integrator
 average1d     mathematics.average1DWithinTolerance against the documented iterative procedure
 """
@@ -40,6 +41,7 @@ ASSUMPTIONS = [
 # (a case carrying "raw": true is executed as written; the defect replays use that).
 EXCLUDE_KNOWN = {
     "remesh/array-only-mapper-with-unset": False,  # repaired in /repo (fix: commit); searched again
+    "common/top-plane-dropped-for-anchor-below-it": True,
     "resample/sum-interval-inside-one-bin": False,  # repaired in /repo (fix: commit); searched again
     "resample/sum-modifies-array-input": False,  # repaired in /repo (fix: commit); searched again
     "resample/sum-none-in-partial-bin": False,  # repaired in /repo (fix: commit); searched again
@@ -189,6 +191,9 @@ def remesh_strategy(tier):
             ),
             # optional pre-step: the assembly pitch is changed through Block.setPitch (factor x as-built) before re-meshing
             "pitch": st.one_of(st.none(), st.none(), st.sampled_from([0.97, 1.02, 1.05]), st.floats(0.97, 1.05, allow_nan=False)),
+            # optional pre-step: blocks of the source assembly resized in place (axial growth / compaction), with or without mass conservation
+            "resize": st.lists(st.fixed_dictionaries({"b": st.integers(0, 7), "f": st.one_of(st.sampled_from([0.9, 1.1, 1.25]), st.floats(0.8, 1.25, allow_nan=False)),
+                                                      "conserve": st.booleans()}), max_size=3),
             "params": st.lists(param, min_size=1, max_size=7),
             "back": st.fixed_dictionaries(
                 {"reassign": st.booleans(), "vals": st.lists(_value(), min_size=6, max_size=6), "unset": st.integers(0, 255)}
@@ -274,7 +279,7 @@ def _overlap_sets(src_z, lo, hi):
     return must, may, ov
 
 
-def _check_mapping(out, tag, names, src_z, src_vals, dst_z, pre_vals, got_vals, factor):
+def _check_mapping(out, tag, names, src_z, src_vals, dst_z, pre_vals, got_vals, factor, pfx="remesh"):
     """Oracle for one application of setAssemblyStateFromOverlaps.
 
     src_vals[name][i], pre_vals[name][k], got_vals[name][k] are plain values (None | float | [float]).
@@ -294,7 +299,7 @@ def _check_mapping(out, tag, names, src_z, src_vals, dst_z, pre_vals, got_vals, 
             set_must = [i for i in must if sv[i] is not None]
             got = got_vals[name][k]
             if not set_may:
-                out.check(got == pre_vals[name][k], "remesh/%s/unset-source-changes-destination" % kind,
+                out.check(got == pre_vals[name][k], pfx + "/%s/unset-source-changes-destination" % kind,
                           lambda: "%s %s dest block %d: all overlapped source values unset, value %r -> %r" % (tag, name, k, pre_vals[name][k], got))
                 continue
             if not set_must:
@@ -302,13 +307,13 @@ def _check_mapping(out, tag, names, src_z, src_vals, dst_z, pre_vals, got_vals, 
                 out.label("ambiguous:sliver-only")
                 continue
             if got is None:
-                out.fail("remesh/%s/value-not-mapped" % kind, "%s %s dest block %d [%r,%r]: no value although sources %r are set" % (tag, name, k, lo, hi, set_must))
+                out.fail(pfx + "/%s/value-not-mapped" % kind, "%s %s dest block %d [%r,%r]: no value although sources %r are set" % (tag, name, k, lo, hi, set_must))
                 total_ok = False
                 continue
             if kind == "peak":
                 cand = [sv[i] for i in set_may]
                 need = max(sv[i] for i in set_must)
-                out.check(got in cand and got >= need, "remesh/peak/not-largest-overlapped",
+                out.check(got in cand and got >= need, pfx + "/peak/not-largest-overlapped",
                           lambda: "%s %s dest block %d [%r,%r]: got %r, overlapped values %r (required >= %r)" % (tag, name, k, lo, hi, got, cand, need))
                 continue
             if kind == "avg" and len(set_may) != len(may):
@@ -317,7 +322,7 @@ def _check_mapping(out, tag, names, src_z, src_vals, dst_z, pre_vals, got_vals, 
             width = len(_vec(sv[set_may[0]]))
             gv = _vec(got)
             if len(gv) != width:
-                out.fail("remesh/%s/array-shape" % kind, "%s %s dest block %d: length %d expected %d" % (tag, name, k, len(gv), width))
+                out.fail(pfx + "/%s/array-shape" % kind, "%s %s dest block %d: length %d expected %d" % (tag, name, k, len(gv), width))
                 total_ok = False
                 continue
             for g in range(width):
@@ -329,7 +334,7 @@ def _check_mapping(out, tag, names, src_z, src_vals, dst_z, pre_vals, got_vals, 
                     scale = math.fsum(abs(v) * (1.0 + (src_z[i + 1] - src_z[i]) / H) for (v, _w), i in zip(terms, set_may))
                 exp = math.fsum(v * w for v, w in terms)
                 tol = factor * scale + 1e-300
-                sig = "remesh/int/share-of-source" if kind == "int" else "remesh/avg/not-height-weighted-mean"
+                sig = pfx + ("/int/share-of-source" if kind == "int" else "/avg/not-height-weighted-mean")
                 out.check(abs(gv[g] - exp) <= tol, sig,
                           lambda: "%s %s[%d] dest block %d [%r,%r] H=%r: got %r expected %r (tol %.3g); sources %r" % (
                               tag, name, g, k, lo, hi, H, gv[g], exp, tol, [(i, sv[i], ov[i]) for i in set_may]))
@@ -338,7 +343,7 @@ def _check_mapping(out, tag, names, src_z, src_vals, dst_z, pre_vals, got_vals, 
                     if max(vs) == min(vs):
                         # (part of the cell covered only by overlaps below the documented cut-off counts as empty)
                         uncovered = abs(1.0 - math.fsum(max(ov[i], 0.0) for i in set_may) / H)
-                        out.check(abs(gv[g] - vs[0]) <= tol + uncovered * abs(vs[0]), "remesh/avg/constant-not-preserved",
+                        out.check(abs(gv[g] - vs[0]) <= tol + uncovered * abs(vs[0]), pfx + "/avg/constant-not-preserved",
                                   lambda: "%s %s[%d] dest block %d: constant %r became %r" % (tag, name, g, k, vs[0], gv[g]))
             if kind == "int":
                 got_total = gv if got_total is None else [a + b for a, b in zip(got_total, gv)]
@@ -348,7 +353,7 @@ def _check_mapping(out, tag, names, src_z, src_vals, dst_z, pre_vals, got_vals, 
                 for g in range(len(setsrc[0])):
                     exp = math.fsum(v[g] for v in setsrc)
                     scale = math.fsum(abs(v[g]) for v in setsrc)
-                    out.check(abs(got_total[g] - exp) <= 4 * factor * scale + 1e-300, "remesh/int/assembly-total-not-conserved",
+                    out.check(abs(got_total[g] - exp) <= 4 * factor * scale + 1e-300, pfx + "/int/assembly-total-not-conserved",
                               lambda: "%s %s[%d]: assembly total %r -> %r (sum |v| = %r)" % (tag, name, g, exp, got_total[g], scale))
 
 
@@ -391,10 +396,21 @@ def remesh_execute(case):
             b.setPitch(newPitch)
         out.label("pitch:changed")
         out.check(all(abs(b.getPitch() - newPitch) <= 1e-12 * newPitch for b in a), "remesh/harness-pitch-not-set", lambda: "pitches %r" % [b.getPitch() for b in a])
-    src_z = ref.cumulative([s["h"] for s in specs])
-    # harness sanity: our z equals armi's
-    out.check(all(abs(b.p.ztop - src_z[i + 1]) <= 1e-9 and abs(b.p.zbottom - src_z[i]) <= 1e-9 for i, b in enumerate(a)),
-              "remesh/source-z-coordinates", lambda: "block z %r vs cumulative heights %r" % ([(b.p.zbottom, b.p.ztop) for b in a], src_z))
+    for rz in case.get("resize", []):
+        # Block.setHeight documents that it refreshes the parent's z-coordinates itself; nothing else is called afterwards
+        b = a[rz["b"] % n]
+        h1 = b.getHeight() * rz["f"]
+        if rz["conserve"]:
+            b.setHeight(h1, conserveMass=True, adjustList=sorted(b.getNuclides()))
+        else:
+            b.setHeight(h1)
+        out.label("resize:" + ("conserveMass" if rz["conserve"] else "plain"))
+    heights = [float(b.getHeight()) for b in a]
+    src_z = ref.cumulative(heights)
+    # precondition of every re-meshing: the blocks' zbottom/ztop are contiguous and equal the cumulative heights
+    if not out.check(all(abs(b.p.ztop - src_z[i + 1]) <= 1e-9 and abs(b.p.zbottom - src_z[i]) <= 1e-9 for i, b in enumerate(a)),
+                     "remesh/source-z-coordinates", lambda: "block (zbottom, ztop) %r vs cumulative heights %r" % ([(b.p.zbottom, b.p.ztop) for b in a], src_z)):
+        return out
     mesh = _build_mesh(src_z, case["mesh"])
     dst_z = [0.0] + mesh
     splits, merges, refinement, sliver = _mesh_class(src_z, mesh)
@@ -479,7 +495,7 @@ def remesh_execute(case):
         m0, m1 = a.getMass("U235"), new.getMass("U235")
         out.check(abs(m1 - m0) <= 2 * factor * abs(m0) + 1e-300, "remesh/atoms/getMass-not-conserved", lambda: "getMass(U235) %r -> %r" % (m0, m1))
     # the source is left alone
-    out.check(_densities(a, nucs) == srcN and _read_params(a, names) == src_vals and [b.getHeight() for b in a] == [s["h"] for s in specs],
+    out.check(_densities(a, nucs) == srcN and _read_params(a, names) == src_vals and [b.getHeight() for b in a] == heights,
               "remesh/source-assembly-modified", "forward mapping changed the source assembly")
     # parameters on the new assembly: fresh blocks start from the parameter defaults
     pre = {name: [_plain(pm.paramDefaults[name])] * len(mesh) for name in names}
@@ -862,6 +878,8 @@ def common_strategy(tier):
                 min_size=2,
                 max_size=4,
             ),
+            # top / bottom block of every assembly this many minimum sizes thick (the neighbour takes the difference)
+            "thin": st.lists(st.one_of(st.none(), st.sampled_from([0.3, 0.6, 0.9]), st.floats(0.1, 1.2, allow_nan=False)), min_size=2, max_size=2),
             "cells": st.lists(st.integers(0, 3), min_size=7, max_size=7),
             "minimum": st.one_of(st.none(), st.sampled_from([0.5, 1.0, 3.0, 3.0, 10.0]), st.sampled_from([1.0, 3.0, 5.0]), st.sampled_from([2.0, 3.0, 4.0]),
                                  st.floats(0.1, 30.0, allow_nan=False), st.floats(0.5, 8.0, allow_nan=False)),
@@ -915,7 +933,7 @@ def _check_anchor_rule(out, r, minimum, mesh, refused):
         pair = exc.args[0]
     if info.get("borderline"):
         out.label("skipped:anchor-rule-borderline")
-        return
+        return None
     if cb:
         out.label("control:%d-bottoms" % min(len(cb), 3))
     if expect_refusal:
@@ -936,14 +954,11 @@ def _check_anchor_rule(out, r, minimum, mesh, refused):
     off = [z for z in anchors if (z in cb or z in ct)]
     if off:
         out.label("anchors:control-%d" % min(len(off), 3))
+    return anchors
 
 
-def common_execute(case):
-    from armi.reactor import blueprints, reactors
-    from armi.reactor.converters import uniformMesh as um
-    from vp import env
-
-    out = Out()
+def _common_designs(case):
+    """(designs, cells, blueprint text) of a generated 7-assembly reactor."""
     nb0 = case["nb"]
     designs = []
     total = None
@@ -951,6 +966,10 @@ def common_execute(case):
         nb = nb0  # (armi builds its axial snap list from one block count: all designs have the same number of blocks)
         lo = min(d["lo"], nb - 2)
         hi = min(lo + d["len"], nb - 1)
+        if case.get("thin", [None, None])[0] is not None and nb >= 4:
+            # a thin top block: keep a second block between the column and the top so that the thin cell is not next to an anchor
+            lo = min(lo, nb - 3)
+            hi = max(lo + 1, min(hi, nb - 2))
         main = "control" if (d["control"] and di > 0) else "fuel"
         kinds = ["grid plate"] + ["reflector"] * (lo - 1) + [main] * (hi - lo) + ["plenum"] * (nb - hi)
         hs = [round(case["base"][i] * (1.0 + d["dev"][i]), 4) for i in range(nb)]
@@ -968,10 +987,30 @@ def common_execute(case):
         if di > 0:
             _shift_boundary(hs, lo, sh[0] * unit)
             _shift_boundary(hs, hi, sh[1] * unit)
+        thin = case.get("thin", [None, None])
+        if thin[0] is not None:  # thin top block
+            t = round(min(hs[-1], max(0.5, thin[0] * unit)), 4)
+            hs[-2] = round(hs[-2] + hs[-1] - t, 6)
+            hs[-1] = t
+        if thin[1] is not None:  # thin bottom block
+            t = round(min(hs[0], max(0.5, thin[1] * unit)), 4)
+            hs[1] = round(hs[1] + hs[0] - t, 6)
+            hs[0] = t
         designs.append({"kinds": kinds, "heights": hs, "main": main})
     nd = len(designs)
     cells = [(_CELLS[i], 0 if i == 0 else case["cells"][i] % nd) for i in range(7)]
     text = _render_bp(designs, cells)
+    return designs, cells, text
+
+
+def common_execute(case):
+    from armi.reactor import blueprints, reactors
+    from armi.reactor.converters import uniformMesh as um
+    from vp import env
+
+    out = Out()
+    designs, cells, text = _common_designs(case)
+    nd = len(designs)
     cs = env.quiet_settings({"inputHeightsConsideredHot": True, "detailedAxialExpansion": True})
     r = reactors.factory(cs, blueprints.Blueprints.load(text))
     minimum = case["minimum"]
@@ -1024,7 +1063,29 @@ def common_execute(case):
     mesh = [float(x) for x in g._commonMesh]
     out.label("outcome:mesh")
     refused = False
-    _check_anchor_rule(out, r, minimum, mesh, refused)
+    anchors = _check_anchor_rule(out, r, minimum, mesh, refused)
+    # the common mesh spans the assemblies: its last plane is the top of the (average) mesh = top of the core
+    top = avg[-1]
+    heights_ = [float(a_.getTotalHeight()) for a_ in r.core]
+    if max(heights_) - min(heights_) <= 1e-5 and abs(top - max(heights_)) <= 1e-5:
+        ttol = 1e-9 * max(1.0, top)
+        if len(avg) >= 2 and top - avg[-2] < minimum:
+            out.label("top:cell-thinner-than-minimum")
+        if abs(mesh[-1] - top) > ttol:
+            S_TOP = "common/top-plane-dropped-for-anchor-below-it"
+            near = None if anchors is None else [z for z in anchors if 0.0 < top - z < minimum]
+            msg = "minimum %r: common mesh %r ends below the top %r of the core (average mesh %r, anchors %r)" % (minimum, mesh, top, avg, anchors)
+            if near is None:
+                out.label("skipped:top-plane-borderline")
+            elif near:
+                if EXCLUDE_KNOWN[S_TOP] and not case.get("raw"):
+                    out.label("excluded:" + S_TOP)
+                else:
+                    out.fail(S_TOP, msg + "; anchors %r lie less than the minimum below the top" % near)
+            else:
+                out.fail("common/top-plane-dropped", msg)
+        else:
+            out.label("top:kept")
     cand = avg + sb
     tol = 1e-9 * max(1.0, max(cand))
     out.check(all(mesh[i + 1] > mesh[i] for i in range(len(mesh) - 1)), "common/not-strictly-increasing", lambda: "mesh %r" % mesh)
@@ -1035,6 +1096,114 @@ def common_execute(case):
     for z, what in ((min(fuel_bottoms), "lowest fuel bottom"), (max(fuel_tops), "highest fuel top")):
         out.check(any(abs(m - z) <= tol for m in mesh), "common/anchor-dropped", lambda: "%s %r not in mesh %r (minimum %r)" % (what, z, mesh, minimum))
     out.nontrivial = len(used) >= 2 and (len(mesh) != len(avg) or any(abs(x - y) > tol for x, y in zip(mesh, avg)))
+    return out
+
+
+# ---------------------------------------------------------------------------------------------
+# part 3c: the converter round trip (convert -> results on the uniform copies -> applyStateToOriginal),
+#          whole core or the subset named by the nonUniformAssemFlags setting
+
+_SUBSETS = [[], ["primary control"], ["secondary control"], ["control"], ["outer fuel"], ["primary control", "outer fuel"], ["inner fuel", "control"]]
+_CONV_PARAMS = ["power", "mgFlux", "pdens", "flux", "fluxPeak"]
+
+
+def converter_strategy(tier):
+    return st.fixed_dictionaries(
+        {
+            "reactor": common_strategy(tier),
+            "subset": st.integers(0, len(_SUBSETS) - 1),
+            "vals": st.lists(st.one_of(st.sampled_from([1.0, 5.0, 1.0e6]), st.floats(0.0, 1.0e9, allow_nan=False)), min_size=8, max_size=8),
+            "G": st.integers(1, 3),
+            "flatFlux": st.booleans(),
+        }
+    )
+
+
+def _atoms(assem):
+    tot = {}
+    for b in assem:
+        v = float(b.getVolume())
+        for nuc, d in b.getNumberDensities().items():
+            tot[nuc] = tot.get(nuc, 0.0) + float(d) * v
+    return tot
+
+
+def converter_execute(case):
+    from armi.reactor import blueprints, reactors
+    from armi.reactor.converters import uniformMesh as um
+    from armi.reactor.flags import Flags
+    from vp import env
+
+    out = Out()
+    designs, cells, text = _common_designs(case["reactor"])
+    subset = _SUBSETS[case["subset"] % len(_SUBSETS)]
+    cs = env.quiet_settings({"inputHeightsConsideredHot": True, "detailedAxialExpansion": True, "nonUniformAssemFlags": subset})
+    r = reactors.factory(cs, blueprints.Blueprints.load(text))
+    names = [a.getName() for a in r.core]
+    vals = case["vals"]
+    # a stale state on the originals, which the mapping back has to replace
+    for a in r.core:
+        for b in a:
+            b.p.power = 1.0
+            b.p.pdens = 0.01
+            b.p.flux = 1.0
+            b.p.fluxPeak = 2.0
+    pre = {nm: _read_params(r.core.getAssemblyByName(nm), _CONV_PARAMS) for nm in names}
+    orig_h = {nm: [float(b.getHeight()) for b in r.core.getAssemblyByName(nm)] for nm in names}
+    atoms0 = {nm: _atoms(r.core.getAssemblyByName(nm)) for nm in names}
+    if subset:
+        flags = [Flags.fromStringIgnoreErrors(f) for f in subset]
+        selected = [a.getName() for a in r.core.getAssemblies(flags)]
+    else:
+        selected = list(names)
+    out.label("path:" + ("subset" if subset else "whole-core"), "converted:%d" % min(len(selected), 7))
+    conv = um.NeutronicsUniformMeshConverter(cs=cs, calcReactionRates=False)
+    try:
+        conv.convert(r)
+    except ValueError as exc:
+        if "near the mean" in str(exc) or "non-physical" in str(exc):
+            out.rejected = True  # documented refusal of average1DWithinTolerance (assembly meshes too different)
+            out.label("outcome:average-refused")
+            return out
+        raise
+    ucore = conv.convReactor.core
+    uni = {}
+    for nm in selected:
+        ua = ucore.getAssemblyByName(nm)
+        # the copy sits on the uniform mesh and holds the same atoms
+        a1 = _atoms(ua)
+        for nuc, n0 in atoms0[nm].items():
+            out.check(abs(a1.get(nuc, 0.0) - n0) <= 1e-8 * abs(n0) + 1e-300, "converter/atoms-not-conserved",
+                      lambda: "%s %s: atoms %r -> %r on the uniform mesh (heights %r -> %r)" % (nm, nuc, n0, a1.get(nuc, 0.0), orig_h[nm], [b.getHeight() for b in ua]))
+        # "physics results" on the uniform copy
+        for k, b in enumerate(ua):
+            v = vals[k % 8]
+            b.p.power = v
+            b.p.mgFlux = [v * (g + 1) for g in range(case["G"])]
+            b.p.pdens = vals[0]
+            b.p.flux = vals[1] if case["flatFlux"] else vals[(k + 3) % 8]
+            b.p.fluxPeak = vals[(k + 5) % 8]
+        uni[nm] = ([0.0] + [float(b.p.ztop) for b in ua], _read_params(ua, _CONV_PARAMS))
+    conv.applyStateToOriginal()
+    nontrivial = False
+    for nm in names:
+        a = r.core.getAssemblyByName(nm)
+        if not out.check(a is not None and [float(b.getHeight()) for b in a] == orig_h[nm], "converter/original-mesh-not-restored",
+                         lambda: "%s: block heights %r, originally %r" % (nm, None if a is None else [b.getHeight() for b in a], orig_h[nm])):
+            continue
+        got = _read_params(a, _CONV_PARAMS)
+        if nm not in selected:
+            out.check(got == pre[nm], "converter/unconverted-assembly-changed", lambda: "%s: %r -> %r" % (nm, pre[nm], got))
+            continue
+        uz, uv = uni[nm]
+        dz = ref.cumulative(orig_h[nm])
+        if any(abs(x - y) > 1e-6 for x in uz[1:-1] for y in dz[1:-1] if abs(x - y) < 1.0) or len(uz) != len(dz):
+            nontrivial = True
+        _check_mapping(out, "%s (%s)" % (nm, "subset" if subset else "whole core"), _CONV_PARAMS, uz, uv, dz, pre[nm], got, 2e-9, pfx="converter")
+        a2 = _atoms(a)
+        out.check(all(abs(a2.get(nuc, 0.0) - n0) <= 1e-9 * abs(n0) + 1e-300 for nuc, n0 in atoms0[nm].items()), "converter/original-atoms-changed",
+                  lambda: "%s: atoms of the original assembly changed by the round trip" % nm)
+    out.nontrivial = nontrivial and bool(selected)
     return out
 
 
@@ -1356,6 +1525,12 @@ PARTS = [
               "size through UniformMeshGenerator.generateCommonMesh; average mesh = documented iterative mean, decusped mesh strictly "
               "increasing, from average-mesh points and fuel/control boundaries only, gaps >= minimum, lowest fuel bottom and highest fuel top "
               "kept, ValueError only with two material boundaries closer than the minimum; non-trivial = >= 2 designs and a changed mesh"),
+    Part("converter", converter_execute, strategy=converter_strategy, budget={"quick": 100, "thorough": 5000}, procs={"quick": 4, "thorough": 16},
+         rule="Hypothesis: the blueprint reactors of common_mesh x nonUniformAssemFlags subsets (none = whole core, primary/secondary/all control, "
+              "fuel types, mixtures) through NeutronicsUniformMeshConverter.convert, generated results (power, mgFlux, pdens, flux, fluxPeak) "
+              "written on the uniform copies, applyStateToOriginal; atoms of every copy equal the original's, original meshes restored, values "
+              "on every converted original per the overlap oracle (shares/totals, means, constants, peaks), unconverted assemblies untouched; "
+              "non-trivial = a converted assembly whose mesh differs from the uniform one"),
     Part("resample", resample_execute, strategy=resample_strategy, budget={"quick": 4000, "thorough": 300000}, procs={"quick": 2, "thorough": 16},
          rule="Hypothesis: input mesh of 1-7 bins, values as list/int list/NumPy array/list of arrays/2-D array, None entries, output points "
               "at bin fractions, +-1e-12..1e-6 off input points, outside the range; avg and sum modes; exact step-function mean/integral per "
